@@ -93,8 +93,8 @@ func doInject(r row, p *chanpair.Pair, sl *srvLoop, dir, class string, frames []
 			}
 			b, _ := q.NodesToWrite[0].Value.Value.Value().([]byte)
 			verdict(len(chunks), "", b)
-		case <-time.After(10 * time.Second):
-			verdict(len(chunks), "server channel delivered nothing within 10s", nil)
+		case <-time.After(30 * time.Second):
+			verdict(len(chunks), "server channel delivered nothing within 30s", nil)
 		}
 		return
 	}
@@ -106,7 +106,7 @@ func doInject(r row, p *chanpair.Pair, sl *srvLoop, dir, class string, frames []
 	sl.set(w)
 	defer sl.set(nil)
 	go func() {
-		ctx, cancel := context.WithTimeout(context.Background(), 15*time.Second)
+		ctx, cancel := context.WithTimeout(context.Background(), 40*time.Second)
 		defer cancel()
 		done <- p.Client.SendRequest(ctx, chanpair.ReadReq(0, 2259), nil, func(resp ua.Response) error {
 			if q, ok := resp.(*ua.ReadResponse); ok && len(q.Results) == 1 && q.Results[0].Value != nil {
@@ -128,7 +128,7 @@ func doInject(r row, p *chanpair.Pair, sl *srvLoop, dir, class string, frames []
 	case err := <-done:
 		vfgo.Inconclusive(c, fmt.Sprintf("request not seen by the server side: %v", err))
 		return
-	case <-time.After(10 * time.Second):
+	case <-time.After(30 * time.Second):
 		vfgo.Inconclusive(c, "request not seen by the server side")
 		return
 	}
